@@ -1,4 +1,4 @@
 SPECIFICATION Spec
-CONSTANTS MaxLam = 2 NumPatterns = 2 MaxSubsets = 2
+CONSTANTS MaxLam = 2 NumPatterns = 2 MaxSubsets = 2 FullX = FALSE
 INVARIANTS Inv1 Inv2 Inv3 Inv4 Inv5 Inv6
 CHECK_DEADLOCK FALSE
